@@ -195,8 +195,8 @@ def cmpVals (op : CmpOp) (a b : Val) : Except Err Bool :=
   | .eq => pure (a == b)
   | .ne => pure (!(a == b))
   | _ =>
-    match a, b with
-    | .int x, .int y =>
+    match a.num?, b.num? with
+    | some x, some y =>
         pure (match op with | .lt => decide (x < y) | .le => decide (x ≤ y) | .gt => decide (x > y) | _ => decide (x ≥ y))
     | _, _ => throw .type
 
